@@ -912,6 +912,11 @@ where
     S: Strategy<Value = C>,
     F: Fn(&C, &mut CaseCtx) -> Result<(), String>,
 {
+    // NOTE: upstream proptest's pass-through RNG answers zeros once the bytes are used up (and a
+    // forked child gets half of what is left), on which rand 0.9's unbiased integer sampling spins
+    // forever; the vf-fuzz workspace therefore builds against a patched copy
+    // (harness/fuzz/vendor/proptest-1.11.0, two hunks marked VERIF PATCH) whose stream continues
+    // with bytes that are a pure function of (input, position).
     let rng = TestRng::from_seed(RngAlgorithm::PassThrough, data);
     let mut runner = TestRunner::new_with_rng(Config { failure_persistence: None, ..Config::default() }, rng);
     let Ok(tree) = strat.new_tree(&mut runner) else {
@@ -958,7 +963,7 @@ fn fuzz_dump_stats(st: &FuzzStats) {
 
 /// One fuzz iteration on an already decoded case, with the SAME closure the generated
 /// sub-check `sub` of `property` runs. Counts executions / distinct / non-trivial cases
-/// (dumped to $VF_FUZZ_STATS every 500 executions). A violation writes the JSON replay file
+/// (dumped to $VF_FUZZ_STATS every 100 executions). A violation writes the JSON replay file
 /// that `./check <id> replay <file>` accepts, prints the VIOLATION line and aborts (so that
 /// libFuzzer also saves its own artifact). Known findings and `inconclusive:` results are
 /// tolerated and counted, so that a campaign does not rediscover one failure forever.
@@ -999,7 +1004,7 @@ where
             None => violation = Some(msg),
         },
     }
-    if st.executions % 500 == 0 || st.executions == 1 || violation.is_some() {
+    if st.executions % 100 == 0 || st.executions == 1 || violation.is_some() {
         fuzz_dump_stats(&st);
     }
     drop(st);
